@@ -15,11 +15,14 @@ import harness.common as hc
 from harness.common import Ck, coq_list
 
 MANIFEST = dict(
-    technique='Rocq proof (heap frame theorem over all mutation histories; copy census with sources => independence; '
-              'per-class export-equality theorem over masked unfoldings; operator-purity and collapse_one frame theorems '
-              'as instances of the frame theorem; kernel-checked separation certificates for exported real object graphs) '
-              '+ five fail-closed ast translators (copy census with source fields, export reads, Keyvalues +/+= append '
-              'sites, math.py operator write/return origins, collapse_one write/enter/copy sites) + oracle search',
+    technique='Rocq proof (heap frame theorem over all mutation histories, also for the masked export observation; copy census '
+              'with sources and constructor ARGUMENT FLOWS => independence; per-class export-equality theorem over masked '
+              'unfoldings; both composed into one whole-property theorem per copy method; operator-purity and collapse_one '
+              'frame theorems as instances of the frame theorem; kernel-checked certificates on exported real object graphs: '
+              'separation, and the census rows themselves) + five fail-closed ast translators with a semantic normalisation '
+              'pre-pass (copy census with source fields and flows through the constructor specialised to the call, export '
+              'reads, Keyvalues +/+= append sites, math.py operator write/return origins, collapse_one write/enter/copy '
+              'sites) + oracle search incl. a boundary-value probe of every scalar field',
     text='Theorems in Props/C09.v (no axioms). Independence: in a heap of mutable/immutable nodes, if no mutable location '
          'is reachable both from object a and from the roots a mutator holds, no sequence of stores/allocations through '
          'those roots changes the unfolding (export) of a, and vice versa; a certificate checker for finite heaps is sound '
@@ -28,21 +31,39 @@ MANIFEST = dict(
          'its original. Completeness: c09_copy_export_equal — if every field the class\'s export reads (generated '
          'export_reads_X) is carried over from its own field (share / fresh container of the same elements / nested copy '
          'that itself exports equally) the copy\'s masked unfolding (IDs, map pointer and unread fields masked) equals the '
-         'original\'s at every depth; refuted for a wrong source field. Keyvalues + / +=: pure, complete and every '
+         'original\'s at every depth; refuted for a wrong source field. Whole property (c09_copy_complete_and_independent, '
+         'c09_all_classes_complete_and_independent): fresh + sources match + export ok + rows hold => the copy exports like '
+         'the original, after every history through the copy the original exports as before the copy was made, after every '
+         'history through the original the copy exports as the original did when copied. Argument flows '
+         '(copy_args_lossless): every carried-over field is fed by its own field only, through value-preserving steps of the '
+         'constructor specialised to the call (p-or-default rejected for scalar fields; c09_imm_flow_complete, '
+         'c09_only_once_argument_lossy_refuted). Row certificate (c09_row_cert_sound): a heap exported from a real '
+         '(original, copy) pair that passes row_cert_ok against the generated census satisfies every premise of the census '
+         'theorem; export_cert_ok decides the completeness premises (nested copies observed equal at EVERY depth, decided '
+         'at a stabilised depth: c09_mobs_eq_decided); both on one heap + the census obligations = the whole property for '
+         'that real pair inside the kernel (c09_real_copy_complete_and_independent). Keyvalues + / +=: pure, complete and every '
          'appended child a fresh copy iff the receiver and the copied-flag of each append site (one per branch) are right. '
          'Operators: a run none of whose stores is tagged with an operand origin leaves every pre-existing object '
          'unchanged and returns only new objects; in-place operators leave everything separated from the receiver '
          'unchanged. Instancing: a collapse_one run with no template-tagged store or stored value leaves the template '
          'unchanged. Tie (every run): translators regenerate the five Gen tables from vmf.py, keyvalues.py, math.py, '
-         'instancing.py; ~110 named instance obligations (per class: copy_covers_fields, copy_fresh_mutables, '
-         'copy_sources_match, copy_export_equal, export_reads_are_fields; per kv branch; per operator family; '
-         'collapse_*); census vs run-time identities, export reads vs traced attribute reads, operator rows vs real '
-         'calls, kv model vs implementation; exported real object graphs certified in the kernel. Search: identity '
-         'walk, export equality modulo IDs, random in-place mutation histories on either side, instance collapse with '
-         'proxies followed by edits of the target, operand snapshots for every operator.',
+         'instancing.py; 128 named instance obligations (per census label: copy_covers_fields, copy_fresh_mutables, '
+         'copy_sources_match, copy_args_lossless, copy_export_equal, export_reads_are_fields; per kv branch; per operator '
+         'family; collapse_*; table level incl. all_classes_complete_and_independent); census vs run-time identities, '
+         'argument flows vs the real constructors on boundary values, export reads vs traced attribute reads, operator '
+         'rows vs real calls, kv model vs implementation; exported real object graphs certified in the kernel (separation; '
+         'census rows: independence premises and completeness premises). Search: identity walk, export equality modulo IDs, random in-place mutation histories on either '
+         'side, boundary value of every scalar field then copy + export, instance collapse with proxies followed by edits '
+         'of the target, operand snapshots for every operator.',
     note='Trusted: Coq kernel + vm_compute; the translators\' classification of Python expressions into census rows (each '
-         'cross-checked dynamically: census_vs_runtime, export_reads_vs_runtime, op_census_vs_runtime, kv_add '
-         'correspondence) and the reading of a census row as its heap meaning (how_sem / how_complete / tstep / cstep: '
+         'cross-checked dynamically: census_vs_runtime, flows_vs_runtime, export_reads_vs_runtime, op_census_vs_runtime, '
+         'kv_add correspondence; the independence reading of the copy census is additionally decided in the kernel on '
+         'sampled real heaps: certificate:census_rows_hold, and its completeness reading with the export masks of all '
+         'labelled nodes: certificate:export_rows_hold — the census label and the census-ordered field list of every '
+         'exported node come from checks/c09.py::export_rows_heap (trusted glue), the masks are computed in the kernel); the normalisation pre-pass of the copy translator (alias '
+         'locals, loop-append = comprehension, single-return helpers inlined, guard clause = if/else ...: each rewrite is '
+         'exact by construction, unknown shapes stay fail-closed); the flow modes as value functions (flow_fun); '
+         'and the reading of a census row as its heap meaning (how_sem / how_complete / tstep / cstep: '
          'stated in the theorems, not derived from Python semantics); harness/c09_util.py (graph walker: __slots__, '
          '__dict__, containers; the VMF back pointer is context and is not followed); CPython object identity. '
          'Completeness is proved relative to "export is a function of the fields it reads" (reads census is static, '
@@ -54,7 +75,7 @@ MANIFEST = dict(
 )
 
 IMPORTS = ['Coq.Lists.List', 'Coq.Bool.Bool', 'Coq.ZArith.ZArith', 'Coq.Strings.String', 'SV.SM.Store', 'SV.SM.StoreCert',
-           'SV.SM.StoreCopy', 'SV.SM.StoreCopySrc', 'SV.SM.StoreCopyExport', 'SV.SM.KvAdd', 'SV.SM.KvAddFresh',
+           'SV.SM.StoreCopy', 'SV.SM.StoreCopySrc', 'SV.SM.StoreCopyExport', 'SV.SM.StoreCopyFlow', 'SV.SM.StoreCopyWholeProofs', 'SV.SM.StoreRowCert', 'SV.SM.StoreExportCert', 'SV.SM.KvAdd', 'SV.SM.KvAddFresh',
            'SV.SM.OpPurity', 'SV.SM.CollapseCensus', 'SV.Gen.CopyCensus_gen', 'SV.Gen.CopyExportReads_gen',
            'SV.Gen.C09OpCensus_gen', 'SV.Gen.C09Collapse_gen', 'SV.Props.C09']
 CORPUS = hc.VERIF / 'corpus' / 'C09'
@@ -191,7 +212,7 @@ def _run_copy_cases(jobs: list[tuple]) -> list[tuple[list[dict], int]]:
 
 def search_copies(ck: Ck) -> None:
     from harness import c09_util as U
-    n = _budget(ck, 2400, 40000)
+    n = _budget(ck, 1300, 40000)
     cases: list[tuple[str, int, str]] = []
     if CORPUS.exists():
         for p in sorted(CORPUS.glob('*.json')):
@@ -224,6 +245,124 @@ def search_copies(ck: Ck) -> None:
     ck.extra['copy_violation_keys'] = sorted(found)
 
 
+# ------------------------------------------------------------------------------------------------ boundary values of scalar fields
+BOUNDARY = {str: ['', '0', ' '], int: [0, 1, -1, 2, 7], float: [0.0, 0.25, -3.5], bool: [False, True]}
+
+
+def _optional_scalar(o: Any, f: str) -> type | None:
+    """str / int / float / bool when the class declares the field `Optional[<that>]` (run-time annotations), else None."""
+    import typing
+    for k in type(o).__mro__:
+        ann = getattr(k, '__annotations__', {}).get(f)
+        if ann is not None:
+            args = typing.get_args(ann)
+            if len(args) == 2 and type(None) in args:
+                t = args[0] if args[1] is type(None) else args[1]
+                return t if t in BOUNDARY else None
+            return None
+    return None
+
+
+def boundary_values(o: Any, f: str, val: Any) -> list | None:
+    """The boundary values to try for field f of o (current value val): by the run-time type of the value; a field
+    declared Optional[scalar] is also tried with None, and when it currently IS None with the scalar's values; flag and
+    enum fields with every member (and none / all flags); Vec4 fields with three tuples."""
+    t = type(val)
+    if t in BOUNDARY:
+        return BOUNDARY[t] + ([None] if _optional_scalar(o, f) is t else [])
+    if val is None:
+        t2 = _optional_scalar(o, f)
+        return list(BOUNDARY[t2]) if t2 is not None else None
+    import enum
+    if isinstance(val, enum.Flag):        # DispFlag, TriangleTag: no flag, every single flag, all flags
+        members = list(t)
+        every = t(0)
+        for m in members:
+            every |= m
+        return [t(0)] + members + [every]
+    if isinstance(val, enum.Enum):
+        return list(t)
+    if t.__name__ == 'Vec4':              # multiblend tuples of a displacement vertex
+        return [t(0.0, 0.0, 0.0, 0.0), t(0.25, 0.5, 0.75, 1.0), t(1.0, 1.0, 1.0, 1.0)]
+    return None
+
+
+def run_boundary_case(kind: str, case_seed: int, variant: str) -> list[dict]:
+    """One scalar field at a time: every str/int/float/bool data field of every map object reachable from a generated
+    object is set to each boundary value of its type (falsy values, the values a constructor flag would map to, a value
+    no editor writes), the object is copied, and the copy must export like the (edited) original.  This is the input
+    class a lossy constructor-argument mapping needs (`only_once=` for `times=`, `p or default`)."""
+    from harness import c09_util as U
+    r = random.Random(case_seed)
+    vmf, other = U.VMF(), U.VMF()
+    obj = U.generate(kind, r, vmf)
+    fn, complete = U.copy_variants(kind)[variant]
+    problems: list[dict] = []
+    if not complete:
+        return problems
+    todo = []
+    done: set[tuple[str, str]] = set()
+    for o, path in sorted(U.walk(obj).values(), key=lambda x: (len(x[1]), x[1])):
+        if not type(o).__module__.startswith('srctools.') or type(o).__module__ == 'srctools.math':
+            continue
+        for lab, val in U.children(o):
+            f = lab[1:]
+            if not lab.startswith('.') or f == 'id' or boundary_values(o, f, val) is None or (type(o).__name__, f) in done:
+                continue
+            done.add((type(o).__name__, f))      # one object per (class, field) and case
+            todo.append((o, f, val, path))
+    for o, f, val, path in todo:
+        for b in boundary_values(o, f, val) or []:
+            if b == val and type(b) is type(val):
+                continue
+            try:
+                setattr(o, f, b)
+            except (AttributeError, TypeError, ValueError):
+                break
+            try:
+                with warnings.catch_warnings():
+                    warnings.simplefilter('ignore')
+                    oa = U.observe(obj, True)
+                    cp = fn(obj, other)
+                    ob = U.observe(cp, True)
+            except Exception:
+                continue        # not a state the object can be in (export or copy of the ORIGINAL fails): not a copy defect
+            finally:
+                setattr(o, f, val)
+            if oa != ob:
+                where, la, lb = U.first_diff(oa, ob)
+                problems.append({'key': f'copy-incomplete:{kind}:{"output-line" if kind == "Output" else where_key(where)}',
+                                 'what': f'{kind}.{variant} with {norm_path(path)}.{f} = {b!r}: export of the copy differs from the '
+                                         f'original at {where}: {la!r} vs {lb!r}',
+                                 'detail': [norm_path(path), f, repr(b), where, la, lb], 'n_fields': len(todo)})
+    if not problems:
+        problems.append({'key': None, 'n_fields': len(todo)})
+    return problems
+
+
+def search_boundary(ck: Ck) -> None:
+    from harness import c09_util as U
+    n = _budget(ck, 110, 1500)
+    found: dict[str, tuple[dict, tuple]] = {}
+    for i in range(n):
+        kind = U.KINDS[i % len(U.KINDS)]
+        seed = ck.rng.randrange(1 << 30)
+        variant = ck.rng.choice(sorted(v for v, (_f, c) in U.copy_variants(kind).items() if c))
+        probs = run_boundary_case(kind, seed, variant)
+        nf = probs[0].get('n_fields', 0) if probs else 0
+        ck.count('boundary_cases')
+        ck.count('boundary_field_edits', nf)
+        ck.hist('boundary_kind', kind)
+        if nf:
+            ck.seen(('boundary', kind, seed, variant))
+        for p in probs:
+            if p.get('key'):
+                found.setdefault(p['key'], (p, (kind, seed, variant)))
+    for key, (p, (kind, seed, variant)) in sorted(found.items()):
+        ck.violation(key, p['what'], {'boundary': True, 'kind': kind, 'case_seed': seed, 'variant': variant, 'detail': p['detail'],
+                                      'how': 'checks.c09.run_boundary_case(kind, case_seed, variant)'})
+
+
 # ------------------------------------------------------------------------------------------------ kernel-checked certificates
 def coq_heap(nodes, a, b, sa, sb) -> str:
     def fld(f):
@@ -237,7 +376,7 @@ def cert_cases(ck: Ck) -> None:
     """Export original+copy object graphs of real objects and let the kernel check the separation certificate
     (the premise of c09_export_ok_independent)."""
     from harness import c09_util as U
-    n = _budget(ck, 110, 550)
+    n = _budget(ck, 55, 550)
     exprs, meta = [], []
     kinds = itertools.cycle(U.KINDS)
     tries = 0
@@ -285,6 +424,170 @@ def cert_cases(ck: Ck) -> None:
         ck.tie_broken.append('identity walk and kernel certificate disagree')
     ck.sample({'certificate_case': meta[0][:4], 'kernel_says_separated': vals[0]})
     ck.extra['certificate_rejected'] = [list(m) for m in bad][:20]
+
+
+def export_rows_heap(a: Any, b: Any, ta: Any, tb: Any, label: str, side: dict, eside: dict) -> tuple:
+    """The object graphs of a (original) and b (copy) as a finite heap for the two census certificates: like
+    c09_util.export_heap, but every object whose class has a census (the two objects the census `label` speaks about —
+    ta inside a, tb inside b — and every nested Solid / Side / DispVertex / Output / Keyvalues ...) gets its fields in
+    CENSUS order and is returned with its census LABEL (the kernel computes the export mask of the node from the
+    generated tables: `masks_of_labels` in Props/C09.v).  Returns nodes, the OLD locations (a's graph), the locations of
+    ta and tb, the reach set of tb (new-set certificate), the (location, label) list and a comparison depth (height of
+    the graph + 1)."""
+    from harness import c09_util as U
+    census, class_of = side['census'], side.get('class_of', {})
+    label_of_class: dict[str, str] = {}
+    for lab in side.get('classes', []):
+        label_of_class.setdefault(class_of.get(lab, lab), lab)
+
+    wa, wb = U.walk(a), U.walk(b)
+    locs: dict[int, int] = {}
+    objs: list[Any] = []
+    for w in (wa, wb):
+        for i, (o, _p) in w.items():
+            if i not in locs:
+                locs[i] = len(locs) + 1
+                objs.append(o)
+    atoms: dict[str, int] = {}
+    nodes, masks = [], []
+    for o in objs:
+        lab = label if (o is ta or o is tb) else label_of_class.get(type(o).__name__)
+        if lab is not None and type(o).__name__ == class_of.get(lab, lab):
+            kids = [('.' + r[0], getattr(o, r[0])) for r in census[lab]]
+            masks.append((locs[id(o)], lab))
+        else:
+            kids = U.children(o)
+            if isinstance(o, U.Array):
+                kids = [('[]', x) for x in o]
+        fs = []
+        for _lab, ch in kids:
+            if id(ch) in locs and not U.is_context(ch) and not U.is_immutable_leaf(ch):
+                fs.append(('R', locs[id(ch)]))
+            else:
+                key = 'ctx' if U.is_context(ch) else f'{type(ch).__name__}:{ch!r}'
+                fs.append(('A', atoms.setdefault(key, len(atoms))))
+        nodes.append((locs[id(o)], U.is_mutable(o), fs))
+    kids_of = {loc: [f[1] for f in fs if f[0] == 'R'] for loc, _m, fs in nodes}
+    memo: dict[int, int] = {}
+
+    def height(l: int, stack: tuple = ()) -> int:
+        if l in memo:
+            return memo[l]
+        if l in stack:
+            return 10 ** 6      # a cycle: no depth stabilises, the kernel will reject
+        memo[l] = 1 + max([height(k, stack + (l,)) for k in kids_of.get(l, [])] or [0])
+        return memo[l]
+    depth = min(64, max(height(locs[id(ta)]), height(locs[id(tb)])) + 1)
+    return nodes, [locs[i] for i in wa], locs[id(ta)], locs[id(tb)], [locs[i] for i in U.walk(tb)], masks, depth
+
+
+def cert_rows(ck: Ck, side: dict, eside: dict) -> None:
+    """For generated objects of EVERY census label (nested ones included: a DispVertex of a copied side, a FixupValue
+    of a copied fixup table) export original + copy and let the kernel decide, against the generated census_X /
+    sources_X / export_reads_X:
+      row_cert_ok    — every field of the copy is related to its source field of the original as the row says (same
+                       value / fresh container of the same elements / only new mutables below / a new ID), the
+                       original's fields have the declared kinds, the heaps are closed: the INDEPENDENCE premises
+                       (c09_row_cert_sound);
+      export_cert_ok — every field export reads is, in the copy, the same value / a fresh container of the same
+                       elements / a nested copy observed equal at every depth under the nested export masks: the
+                       COMPLETENESS premises (c09_export_cert_sound).
+    Both accepted on the same heap + the census obligations = the whole property for that real pair, inside the kernel
+    (c09_real_copy_complete_and_independent)."""
+    from harness import c09_util as U
+    census = side.get('census', {})
+    class_of = side.get('class_of', {})
+    makers: dict[str, tuple[str, Any]] = {
+        'EntityFixup_copy_values': ('EntityFixup', lambda o: U.EntityFixup(o.copy_values())),
+        'EntityFixup_copy': ('EntityFixup', lambda o: _copy.copy(o)),
+        'EntityFixup_deepcopy': ('EntityFixup', lambda o: _copy.deepcopy(o)),
+    }
+    for k in ('Camera', 'Cordon', 'VisGroup', 'Solid', 'UVAxis', 'Side', 'Entity', 'EntityGroup', 'Output', 'Keyvalues'):
+        makers[k] = (k, lambda o: o.copy())
+    n = _budget(ck, 3, 24)
+    exprs: list[str] = []
+    meta: list[tuple] = []
+    no_probe: list[str] = []
+
+    def fld(f):
+        return f'VRef {f[1]}%positive' if f[0] == 'R' else f'VAtom {f[1]}%Z'
+    pl = lambda l: '(' + coq_list(f'{x}%positive' for x in l) + ')'
+    for lab, rows in census.items():
+        got = 0
+        for _try in range(4 * n):
+            if got >= n:
+                break
+            seed = ck.rng.randrange(1 << 30)
+            r = random.Random(seed)
+            with warnings.catch_warnings():
+                warnings.simplefilter('ignore')
+                if lab in makers:
+                    o = U.generate(makers[lab][0], r, U.VMF())
+                    c = makers[lab][1](o)
+                    ta, tb = o, c
+                elif lab.startswith('DispVertex_in_'):
+                    o = U.g_side(r, U.VMF(), r.choice([1, 2]))
+                    c = o.copy()
+                    if not o._disp_verts:
+                        continue
+                    k = r.randrange(len(o._disp_verts))
+                    ta, tb = o._disp_verts[k], c._disp_verts[k]
+                elif lab.startswith('FixupValue_in_') and lab.split('_in_')[1] in makers:
+                    o = U.generate('EntityFixup', r, U.VMF())
+                    c = makers[lab.split('_in_')[1]][1](o)
+                    if not o._fixup:
+                        continue
+                    k0 = r.choice(sorted(o._fixup))
+                    ta, tb = o._fixup[k0], c._fixup[k0]
+                else:
+                    no_probe.append(lab)
+                    break
+            try:
+                nodes, old, la, lc, sb, masks, depth = export_rows_heap(o, c, ta, tb, lab, side, eside)
+            except AttributeError:
+                continue
+            if len(nodes) > 700:
+                continue
+            lit = coq_list(f'({loc}%positive, Node {"true" if m else "false"} {coq_list(fld(f) for f in fs)})' for loc, m, fs in nodes)
+            ml = '(masks_of_labels ' + coq_list(f'({loc}%positive, "{mlab}"%string)' for loc, mlab in masks) + ')'
+            exprs.append(f'let L := {lit} in let O := {pl(old)} in '
+                         f'(row_cert_ok L O {la}%positive {lc}%positive {pl(sb)} census_{lab} sources_{lab}, '
+                         f'export_cert_ok L O {la}%positive {lc}%positive {ml} {depth} census_{lab} sources_{lab} '
+                         f'export_reads_{class_of.get(lab, lab)})')
+            meta.append((lab, seed, len(nodes), depth))
+            got += 1
+            ck.count('row_certificate_cases')
+            ck.hist('row_certificate_label', lab)
+            ck.hist('row_certificate_depth', depth)
+            ck.seen(('rowcert', lab, seed))
+    vals: list[str] | None = []
+    for lo in range(0, len(exprs), 55):
+        part = ck.coq_eval(IMPORTS, exprs[lo:lo + 55], name='rowcert', preamble='Import ListNotations.\n', timeout=900)
+        if part is None:
+            vals = None
+            break
+        vals += part
+    if vals is None:
+        ck.obligation('certificate:census_rows_hold', False, 'exported heaps could not be evaluated by coqc')
+        ck.obligation('certificate:export_rows_hold', False, 'exported heaps could not be evaluated by coqc')
+        ck.tie_broken.append('census-row certificate evaluation failed')
+        return
+    flat = [v.replace(' ', '').replace('\n', '') for v in vals]
+    bad_rows = [m for m, v in zip(meta, flat) if not v.startswith('(true,')]
+    bad_exp = [m for m, v in zip(meta, flat) if not v.endswith(',true)')]
+    ck.obligation('certificate:census_rows_hold', not bad_rows and not no_probe,
+                  f'{len(exprs)} exported (original, copy) heaps over {len(census) - len(no_probe)} census labels: the kernel decides that '
+                  f'every field of the copy is related to its source field as the generated census row says and that the '
+                  f'original\'s fields have the declared kinds, for {len(exprs) - len(bad_rows)}; rejected (label, seed, nodes, depth): '
+                  f'{bad_rows[:6]}; labels without a run-time probe: {no_probe}')
+    ck.obligation('certificate:export_rows_hold', not bad_exp and not no_probe,
+                  f'the same {len(exprs)} heaps with the export mask of every labelled node: the kernel decides that every field '
+                  f'export reads is carried over as the row says, nested copies observed equal at every depth (compared at a '
+                  f'stabilised depth), for {len(exprs) - len(bad_exp)}; rejected: {bad_exp[:6]}')
+    if bad_rows or bad_exp or no_probe:
+        ck.tie_broken.append('census rows do not hold on a real (original, copy) object graph: ' + repr((bad_rows + bad_exp + no_probe)[:4]))
+    ck.extra['row_certificate_rejected'] = [list(m) for m in bad_rows][:20]
+    ck.extra['export_certificate_rejected'] = [list(m) for m in bad_exp][:20]
 
 
 # ------------------------------------------------------------------------------------------------ census vs runtime
@@ -381,6 +684,85 @@ def corr_census_runtime(ck: Ck, side: dict, unfresh: tuple = ()) -> None:
     if uniq:
         ck.tie_broken.append('copy census disagrees with the run-time behaviour of copy(): ' + repr(uniq[:4]))
 
+
+
+def corr_flows_runtime(ck: Ck, side: dict) -> None:
+    """The translator's ARGUMENT-FLOW census (static) against the real constructors (dynamic): for every census with a
+    run-time probe and every immutable scalar field the census says is carried over by identity (kind KImm, how HShare,
+    flows = [(the field itself, ident)]), each boundary value of the field's run-time type (falsy values, the values a
+    constructor flag would map to, a value no editor writes) is stored in the original, the object is copied, and the
+    field OF THE COPY must be that very value (same type, same repr) — whether or not export shows the field.  A field
+    stored after construction only under `if <test on self>` is probed in the states where the test holds.
+    Guards the translator's specialisation of the constructor (defaults, partial evaluation, properties)."""
+    from harness import c09_util as U
+    census, flows, guards = side.get('census', {}), side.get('flows', {}), side.get('post_guards', {})
+    makers: dict[str, tuple[str, Any]] = {
+        'EntityFixup_copy': ('EntityFixup', lambda o: _copy.copy(o)),
+        'EntityFixup_deepcopy': ('EntityFixup', lambda o: _copy.deepcopy(o)),
+    }
+    for k in ('Camera', 'Cordon', 'VisGroup', 'Solid', 'UVAxis', 'Side', 'Entity', 'EntityGroup', 'Output', 'Keyvalues'):
+        makers[k] = (k, lambda o: o.copy())
+    n = _budget(ck, 5, 40)
+    bad: list[tuple] = []
+    seen: set[tuple[str, str]] = set()
+    skipped: set[tuple[str, str, str]] = set()
+    for lab, rows in census.items():
+        nested = None
+        if lab in makers:
+            kind, mk = makers[lab]
+        elif lab == 'DispVertex_in_Side':
+            kind, mk, nested = 'Side', (lambda o: o.copy()), (lambda o: o._disp_verts[0] if o._disp_verts else None)
+        else:
+            continue        # FixupValue rows: an immutable named tuple, no field can be stored into (census_vs_runtime covers them)
+        todo = [r[0] for r in rows if r[1] == 'KImm' and r[2] == 'HShare' and flows.get(lab, {}).get(r[0]) == [[r[0], 'ident']]]
+        for _ in range(n):
+            r = random.Random(ck.rng.randrange(1 << 30))
+            with warnings.catch_warnings():
+                warnings.simplefilter('ignore')
+                o = U.g_side(r, U.VMF(), r.choice([1, 2])) if nested else U.generate(kind, r, U.VMF())
+                tgt = nested(o) if nested else o
+                if tgt is None:
+                    continue
+                for f in todo:
+                    try:
+                        val = getattr(tgt, f)
+                    except AttributeError:
+                        bad.append((lab, f, 'attribute missing at run time', ''))
+                        continue
+                    bvals = boundary_values(tgt, f, val)
+                    if bvals is None:
+                        skipped.add((lab, f, type(val).__name__))
+                        continue
+                    for b in bvals:
+                        try:
+                            setattr(tgt, f, b)
+                        except (AttributeError, TypeError, ValueError):
+                            skipped.add((lab, f, 'read-only'))
+                            break
+                        try:
+                            if not all(eval(g, {'self': tgt, 'isinstance': isinstance, 'list': list}) for g in guards.get(lab, {}).get(f, [])):
+                                continue
+                            c = mk(o)
+                            got = getattr(nested(c) if nested else c, f)
+                        except Exception:
+                            continue      # not a state the object can be in / the guard needs a copy() parameter
+                        finally:
+                            setattr(tgt, f, val)
+                        ck.count('flow_runtime_probes')
+                        seen.add((lab, f))
+                        if type(got) is not type(b) or got != b or repr(got) != repr(b):
+                            bad.append((lab, f, repr(b), repr(got)))
+    uniq = sorted(set(bad))
+    for lab, f in sorted(seen):
+        ck.hist('flow_runtime_field', f'{lab}.{f}')
+    ck.obligation('correspondence:flows_vs_runtime', not uniq,
+                  f'{len(seen)} (census, scalar field) pairs whose flow census says "carried over by identity": each boundary '
+                  f'value stored in the original arrives unchanged in the copy; disagreements (census, field, value stored, '
+                  f'value in the copy): {uniq[:8]}; not probed (run-time type without boundary values / read-only): '
+                  f'{sorted(skipped)[:12]}')
+    ck.extra['flow_runtime_not_probed'] = sorted(skipped)
+    if uniq:
+        ck.tie_broken.append('argument-flow census disagrees with the run-time behaviour of copy(): ' + repr(uniq[:4]))
 
 
 def corr_export_reads(ck: Ck, side: dict, eside: dict) -> None:
@@ -651,7 +1033,7 @@ def run_kv_add(case_seed: int) -> list[dict]:
 
 
 def search_kv_add(ck: Ck) -> None:
-    n = _budget(ck, 3000, 30000)
+    n = _budget(ck, 2400, 30000)
     found: dict[str, tuple[dict, int]] = {}
     seeds = [ck.rng.randrange(1 << 30) for _ in range(n)]
     for s in seeds:
@@ -829,7 +1211,7 @@ def run_instance_case(case_seed: int) -> list[dict]:
 
 
 def search_instancing(ck: Ck) -> None:
-    n = _budget(ck, 150, 2000)
+    n = _budget(ck, 120, 2000)
     found: dict[str, tuple[dict, int]] = {}
     for _ in range(n):
         s = ck.rng.randrange(1 << 30)
@@ -853,12 +1235,22 @@ def run(ck: Ck) -> None:
                'frozen twins, scalars and tuples, plus every row of the operator census called with 12 probe arguments; '
                'Keyvalues +/+=/extend with list/root/block/generator operands; instance collapse of generated templates '
                '(half of them with an io_proxy, instance inputs and outputs) twice, then 6 edits of the target map; export '
-               'read traces of generated objects of every kind; distinct by full case tuple')
+               'read traces of generated objects of every kind; boundary cases: every str/int/float/bool/Optional/flag/enum/Vec4 '
+               'data field of every map object reachable from a generated object set to each boundary value of its type '
+               '(falsy values, the values a constructor flag maps to, values no editor writes), then copied and exported; '
+               'row certificates: (census label, generator seed) heaps of original + copy decided in the kernel against the '
+               'generated census; distinct by full case tuple')
     ck.trusted.append('harness/c09_util.py object-graph walker (slots, __dict__, containers); the VMF back pointer is context')
     ck.trusted.append('translate/c09_copy.py, c09_export.py, c09_ops.py, c09_collapse.py: classification of Python expressions into '
                       'census rows (fail-closed; each census is compared with run-time behaviour on every run)')
     ck.assumptions.append('a census row means its heap relation (how_sem / how_complete, tstep / cstep tags): the theorems are '
-                          'stated over these relations; immutable shared values (str, tuple, frozen objects) are atoms')
+                          'stated over these relations; for the independence relation (how_sem, kind_sem) the relation is DECIDED in '
+                          'the kernel on heaps exported from real (original, copy) pairs of every census label '
+                          '(certificate:census_rows_hold), and so is the completeness relation how_complete under the export masks '
+                          '(certificate:export_rows_hold); immutable shared values (str, tuple, frozen objects) are atoms')
+    ck.assumptions.append('argument flows: a flow mode means its value function (flow_fun: ident/presence = the value, ordefault = the '
+                          'value when truthy, guard/derived = anything); the specialisation of the constructor to the call is '
+                          'compared with the real constructor by flows_vs_runtime on boundary values')
     ck.assumptions.append('export is a function of the data fields it reads (export_reads census, static over-approximation '
                           'of the traced reads); IDs and the map back pointer are masked in the export comparison')
     ck.assumptions.append('the map back pointer (Entity.map, Solid.map, Side.map, VisGroup.vmf ...) is context: mutations '
@@ -897,6 +1289,7 @@ def run(ck: Ck) -> None:
             obs[f'copy_covers_fields:{cls}'] = f'copy_covers_fields census_{cls}'
             obs[f'copy_fresh_mutables:{cls}'] = f'copy_fresh_mutables census_{cls}'
             obs[f'copy_sources_match:{cls}'] = f'copy_sources_match census_{cls} sources_{cls}'
+            obs[f'copy_args_lossless:{cls}'] = f'copy_args_lossless census_{cls} flows_{cls}'
             real = side.get('class_of', {}).get(cls, cls)
             obs[f'copy_export_equal:{cls}'] = f'copy_export_ok census_{cls} sources_{cls} export_reads_{real}'
             obs[f'export_reads_are_fields:{cls}'] = f'reads_are_fields census_{cls} export_reads_{real}'
@@ -919,17 +1312,24 @@ def run(ck: Ck) -> None:
         obs['collapse_census_size'] = 'Nat.leb 20 (List.length collapse_writes) && Nat.leb 10 (List.length collapse_enters)'
         obs['all_classes_export_ok'] = 'all_export_ok'
         obs['all_sources_present'] = 'Nat.eqb (List.length all_sources) %d && all_sources_match' % len(side.get('classes', []))
+        obs['all_flows_present'] = 'Nat.eqb (List.length all_flows) %d && all_args_lossless' % len(side.get('classes', []))
         obs['all_classes_present'] = 'Nat.eqb (List.length all_census) %d' % len(side.get('classes', []))
+        # premise of c09_all_classes_complete_and_independent (the whole property for every copy method of the table)
+        obs['all_classes_complete_and_independent'] = 'all_fresh && all_sources_match && all_export_ok'
         res = ck.instance_obligations(IMPORTS, obs)
         failing = [k for k, v in res.items() if not v]
         if failing:
             ck.tie_broken.append('copy census obligations failed: ' + ', '.join(failing))
             detail = ck.coq_eval(IMPORTS, [f'(not_covered census_{c}, not_fresh census_{c}, wrong_source census_{c} sources_{c}, '
-                                           f'export_broken census_{c} sources_{c} export_reads_{side.get("class_of", {}).get(c, c)})'
+                                           f'export_broken census_{c} sources_{c} export_reads_{side.get("class_of", {}).get(c, c)}, '
+                                           f'lossy_fields census_{c} flows_{c})'
                                            for c in side.get('classes', [])], name='census_detail')
             if detail:
-                ck.extra['census_offending_fields(not_covered, not_fresh, wrong_source, export_broken)'] = {
-                    c: d for c, d in zip(side.get('classes', []), detail) if d.replace(' ', '') not in ('(nil,nil,nil,nil)', '([],[],[],[])')}
+                ck.extra['census_offending_fields(not_covered, not_fresh, wrong_source, export_broken, lossy_argument)'] = {
+                    c: d for c, d in zip(side.get('classes', []), detail) if d.replace(' ', '') not in ('(nil,nil,nil,nil,nil)', '([],[],[],[],[])')}
+                ck.extra['census_flows_of_offending_classes'] = {
+                    c: {f: fl for f, fl in side.get('flows', {}).get(c, {}).items() if fl != [[f, 'ident']]}
+                    for c in side.get('classes', []) if not res.get(f'copy_args_lossless:{c}', True)}
             bad_cl = ck.coq_eval(IMPORTS, ['(collapse_template_sites collapse_writes, collapse_template_sites collapse_enters)'],
                                  name='collapse_detail')
             if bad_cl:
@@ -943,14 +1343,18 @@ def run(ck: Ck) -> None:
                     c: side.get('sources', {}).get(c) for c in side.get('classes', []) if not res.get(f'copy_sources_match:{c}', True)}
         lap('instance_obligations')
         cert_cases(ck)
+        cert_rows(ck, side, eside)
         lap('certificates')
         corr_census_runtime(ck, side, tuple(k for k, v in res.items() if k.startswith('copy_fresh_mutables:') and not v))
+        corr_flows_runtime(ck, side)
         corr_export_reads(ck, side, eside)
         corr_kv_add(ck, side)
         corr_op_census(ck, oside)
         lap('correspondences')
     search_copies(ck)
     lap('search_copies')
+    search_boundary(ck)
+    lap('search_boundary')
     search_kv_add(ck)
     lap('search_kv_add')
     search_operators(ck)
@@ -970,6 +1374,7 @@ def run(ck: Ck) -> None:
             ck.explain(f'instance:copy_covers_fields:{cls}')
             ck.explain(f'instance:copy_sources_match:{cls}')
             ck.explain(f'instance:copy_export_equal:{cls}')
+            ck.explain(f'instance:copy_args_lossless:{cls}')
         if any_key(*[f'shared-mutable:{o}:' for o in owners], *[f'mutation-visible:{o}:' for o in owners]):
             ck.explain(f'instance:copy_fresh_mutables:{cls}')
     if any_key('kv-add-'):
@@ -981,10 +1386,16 @@ def run(ck: Ck) -> None:
         for b in ('kv_add_single', 'kv_add_iter', 'kv_iadd_single', 'kv_iadd_iter'):
             ck.explain(f'instance:{b}_branch_appends_copy')
     if any_key('copy-incomplete:'):
+        ck.explain('correspondence:flows_vs_runtime')
         ck.explain('instance:all_sources_present')
+        ck.explain('instance:all_flows_present')
         ck.explain('instance:all_classes_export_ok')
     if any_key('shared-mutable:', 'mutation-visible:'):
         ck.explain('certificate:export_ok')
+    if any_key('shared-mutable:', 'mutation-visible:', 'copy-incomplete:'):
+        ck.explain('instance:all_classes_complete_and_independent')
+        ck.explain('certificate:census_rows_hold')
+        ck.explain('certificate:export_rows_hold')
     if any_key('instance-collapse-changes-template:', 'instance-'):
         ck.explain('instance:collapse_never_writes_template')
         ck.explain('instance:collapse_only_copies_enter_target')
@@ -999,6 +1410,11 @@ def run(ck: Ck) -> None:
 
 def replay(data: dict) -> int:
     r = data['replay']
+    if r.get('boundary'):
+        for p in run_boundary_case(r['kind'], r['case_seed'], r['variant']):
+            if p.get('key'):
+                print(p['key'], '--', p['what'])
+        return 0
     if 'kind' in r:
         for p in run_copy_case(r['kind'], r['case_seed'], r['variant'], r.get('n_mut', 12)):
             print(p['key'], '--', p['what'])
